@@ -17,6 +17,8 @@ from ..streams import SimTextSource, SimTextSink, SimRawSource, SimRawSink, StdS
 
 ID = 'C15'
 LEVEL = 'fault_enumeration'
+IN_PROCESS = True          # scenarios run inside the worker; violations are confirmed in a pristine interpreter (rbqlsim/zygote.py)
+COLD_START_EVERY = 20      # and one run in 20 is executed there in the first place
 TIERS = {
     'quick': {'runs': 11000, 'deadline_s': 100, 'chunk': 25},
     'thorough': {'runs': 400000, 'deadline_s': 1200, 'chunk': 50},
